@@ -87,6 +87,21 @@ def run_case(case, acc):
             realizable.append((q, ei, si))
         elif not got and W:
             unrealizable.append((q, ei, si))
+        # the same question in the same automaton with only the stepwise
+        # form switched (same region, same initial predicates), and back
+        p1 = bool(aut.plus_one)
+        aut.plus_one = not p1
+        try:
+            got2 = synth.is_realizable(sy.z, aut)
+        finally:
+            aut.plus_one = p1
+        ref2 = synth.reference_verdict(gm, q, not p1, sy.EI, sy.SI, W)
+        if got2 != ref2:
+            acc.violation('verdict_mismatch_after_switching_form', case,
+                          detail=dict(qinit=q, env_init=ei, sys_init=si,
+                                      plus_one=not p1, library=got2,
+                                      reference=ref2, vars=gm.svars,
+                                      W=sorted(W)), qinit=q)
     acc.ev(case, nontrivial=(True in verdicts and False in verdicts),
            n=len(combos))
     # refusal: with a non-empty winning region but a negative verdict the
